@@ -155,6 +155,16 @@ func TestTqvWitness(t *testing.T) {
 		{"PAP, empty password", []tqvStep{{start: start(tq.AuthenTypePAP, "alice", ""), minor: 1}}, false},
 		{"PAP sent with minor version 0", []tqvStep{{start: start(tq.AuthenTypePAP, "alice", tqvToken), minor: 0}}, false},
 		{"CHAP (not implemented)", []tqvStep{{start: start(tq.AuthenTypeCHAP, "alice", tqvToken), minor: 1}}, false},
+		{"CHAP with service ENABLE at minor version 1, then the right password", []tqvStep{{start: func() *tq.AuthenStart {
+			st := start(tq.AuthenTypeCHAP, "alice", "")
+			st.Service = tq.AuthenServiceEnable
+			return st
+		}(), minor: 1}, {cont: cont(tqvToken, 0)}}, false},
+		{"ASCII sent with minor version 1 and service ENABLE, then the right password", []tqvStep{{start: func() *tq.AuthenStart {
+			st := start(tq.AuthenTypeASCII, "alice", "")
+			st.Service = tq.AuthenServiceEnable
+			return st
+		}(), minor: 1}, {cont: cont(tqvToken, 0)}}, false},
 		{"ASCII with user name, right password", []tqvStep{{start: start(tq.AuthenTypeASCII, "alice", ""), minor: 0}, {cont: cont(tqvToken, 0)}}, true},
 		{"ASCII, user name asked, right password", []tqvStep{{start: start(tq.AuthenTypeASCII, "", ""), minor: 0}, {cont: cont("alice", 0)}, {cont: cont(tqvToken, 0)}}, true},
 		{"ASCII, wrong password", []tqvStep{{start: start(tq.AuthenTypeASCII, "alice", ""), minor: 0}, {cont: cont("nope", 0)}}, false},
@@ -215,7 +225,7 @@ func TestTqvWitness(t *testing.T) {
 			}
 		}()
 	}
-	out := map[string]interface{}{"obligation": "cmds/server/handlers.Authenticate*", "scenario": "18 scripted PAP / ASCII logins through AuthenticateStart with capturing response and logger",
+	out := map[string]interface{}{"obligation": "cmds/server/handlers.Authenticate*", "scenario": "20 scripted PAP / ASCII logins through AuthenticateStart with capturing response and logger",
 		"scripts": len(scripts), "mismatches": bad, "violated": len(bad) > 0}
 	b, _ := json.Marshal(out)
 	fmt.Println("TQV-WITNESS " + string(b))
